@@ -76,7 +76,8 @@ def gen_case(ctx, rng, big=False):
             # a small count chosen in the constructor, another one through the setters afterwards
             ctor = rng.randint(1, max(1, min(ne, nf) - 1))
             ops.append(("set", rng.choice([v for v in range(1, nf + 1) if v != ctor]), rng.randint(0, 1)))
-    return {"basis": basis, "n_modes": nm, "ctor": ctor, "opt": opt, "seed": seed, "X": X, "ops": ops, "fit_kws": fit_kws}
+    return {"basis": basis, "n_modes": nm, "ctor": ctor, "opt": opt, "seed": seed, "X": X, "ops": ops, "fit_kws": fit_kws,
+            "shared_optimizer": (fit_kws is None and rng.random() < 0.3)}
 
 
 def _kws(case):
@@ -127,6 +128,16 @@ def check_case(ctx, case, idx):
         return
     if case.get("fit_kws"):
         ctx.count("gqr_region_keywords:" + case["fit_kws"]["constraint_option"])
+    if case.get("shared_optimizer"):
+        # the optimizer object is shared with another model that is fitted afterwards (one CCQR(costs) re-used across bases or sensor
+        # budgets): this model's ranking and selection are its own, whatever the shared optimizer ranked last
+        from pysensors.reconstruction import SSPOR
+        X2 = (np.arange(X.size, dtype=float).reshape(X.shape)[:, ::-1] * 7) % 11 - 5
+        try:
+            SSPOR(basis=models.make_basis("identity", None), optimizer=model.optimizer).fit(X2, quiet=True, seed=5)
+            ctx.count("optimizer_object_shared_with_a_later_model")
+        except Exception:
+            pass
     rank0 = np.array(model.get_all_sensors()).tolist()
     final = model.n_sensors
     changed = False
@@ -264,6 +275,6 @@ def replay(ctx: C.Ctx, payload):
         c = d["case"]
         case = {"basis": c["basis"], "n_modes": c["n_modes"], "ctor": c["ctor"], "opt": c["opt"], "seed": c["seed"],
                 "X": np.array(c["X"], dtype=float), "ops": [tuple([op[0]] + [H._ev(x) for x in op[1:]]) for op in c["ops"]],
-                "fit_kws": c.get("fit_kws")}
+                "fit_kws": c.get("fit_kws"), "shared_optimizer": c.get("shared_optimizer")}
         check_case(ctx, case, 0)
     print("# replayed:", payload.get("what"))
